@@ -4,6 +4,7 @@
 package manage
 
 import (
+	"os"
 	"path"
 	"strings"
 
@@ -73,8 +74,11 @@ func ReadLayerFile(filename string, harderror bool) (*Layerinfo, error) {
 }
 
 
+// The file is written under a temporary name and renamed into place so that a reader (or a
+// crash) never sees a truncated layerconfig
 func WriteLayerfile(filename string, layer *Layerinfo) error {
-	cursor, err := fs.NewTextOutputFileCursor(filename)
+	tmpname := filename + ".tmp"
+	cursor, err := fs.NewTextOutputFileCursor(tmpname)
 	if nil != err {
 		return err
 	}
@@ -90,7 +94,14 @@ func WriteLayerfile(filename string, layer *Layerinfo) error {
 	for _, mnt := range layer.ConfigExports {
 		cursor.Printf("export %s %s %s\n", mnt.Fstype, mnt.Source, mnt.Mount)
 	}
-	return cursor.Close()
+	err = cursor.Close()
+	if err == nil {
+		err = fs.Rename(tmpname, filename)
+	}
+	if err != nil {
+		os.Remove(tmpname)
+	}
+	return err
 }
 
 
